@@ -617,6 +617,24 @@ def case_key(case):
     return hashlib.sha1(json.dumps({k: case[k] for k in ("A", "B", "scale", "origin")}, sort_keys=True, default=C._js).encode()).hexdigest()
 
 
+def clean(o):
+    """strict JSON: non-finite floats become strings, numpy types become python types"""
+    if isinstance(o, dict):
+        return {str(k): clean(v) for k, v in o.items()}
+    if isinstance(o, (list, tuple)):
+        return [clean(v) for v in o]
+    if isinstance(o, np.ndarray):
+        return clean(o.tolist())
+    if isinstance(o, (np.floating, float)):
+        o = float(o)
+        return o if math.isfinite(o) else str(o)
+    if isinstance(o, (np.integer,)):
+        return int(o)
+    if isinstance(o, (np.bool_,)):
+        return bool(o)
+    return o
+
+
 def order_failures(failures):
     """round robin over (contract, obligation) so that the truncated list shows every distinct name"""
     groups = {}
@@ -856,7 +874,8 @@ def main():
         import json
         with open(os.environ["D3VC_DUMP"], "w") as fh:
             json.dump(dict(failures=failures, results=res), fh, default=C._js)
-    failures, keys = order_failures(failures)
+    failures, keys = order_failures(clean(failures))
+    samples = clean(samples)
     fams = {}
     for c in cases:
         fams[c["family"]] = fams.get(c["family"], 0) + 1
@@ -869,7 +888,7 @@ def main():
            "randhull = gaussian vertex hulls with 8..40 vertices; every scene with memory 'zero' (rows of the simplex that GJK does not write read as 0.0) "
            "and, when that changes the simplex, 'stale' (they hold what a preceding GJK call on a fixed reference pair left behind)" % (
                len(cases), C.COLLIDER_TYPES, fams),
-           scenes=len(res), incomplete=len(cases) - len(res), hung_outside_epa=hung_elsewhere, undecided=sum(undec.values()), undecided_by_obligation=undec, status=status, status_stale_runs=status_stale,
+           scenes=len(res), incomplete=len(cases) - len(res), hung_outside_epa=clean(hung_elsewhere), undecided=sum(undec.values()), undecided_by_obligation=undec, status=status, status_stale_runs=status_stale,
            failure_keys=keys, failures_by_obligation_rows_memory=by_rows, minimal_passed_against_upper_bound_only=only_ub,
            success_by_pair={k: v for k, v in sorted(succ_by_pair.items())}, priming_effective=primed,
            library=os.path.dirname(distance3d.__file__), tier=a.tier, seed=a.seed)
